@@ -93,6 +93,7 @@ func H_C05_set_typedef_chain3(s any) {
 }
 
 // three levels where the narrower levels only say min/max: the real bound sits in the outermost typedef
+//
 //vp:setup S_c05
 func H_C05_set_typedef_chain_minmax(s any) {
 	m := s.(*meta.Module)
@@ -182,6 +183,7 @@ func H_C05_set_patterns(s any) {
 }
 
 // enum membership is enforced at conversion (SetValue)
+//
 //vp:setup S_c05
 func H_C05_setvalue_enum(s any) {
 	m := s.(*meta.Module)
